@@ -123,7 +123,10 @@ pub mod util {
     pub(crate) fn eprint_err<E: VErr>(error_code: ErrorCode, msg: &str, err: &E)
         requires
             reportable(error_code), //@label eprint_err.perm.reportable C19
+        ensures reported(error_code),
     { unimplemented!() }
+    /// token fact (C19, "if" direction): a problem was handed to the error channel with this code - only eprint_err establishes it
+    pub uninterp spec fn reported(code: ErrorCode) -> bool;
     #[verifier::external_body]
     pub fn io_err(s: &'static str) -> std::io::Error { unimplemented!() }
 }
@@ -324,6 +327,12 @@ pub mod std_writer {
     //@   req[StdWriter::write.pre.same_now] forall|o: int| #[trigger] now_ok(o) <==> o == old(now).origin()
     //@   ens[StdWriter::write.post.same_now] final(now).origin() == old(now).origin()
     //@   ens[StdWriter::write.post.handed_over] !self.is_async() && !self.poisoned() ==> r == wb_result(self.fmt(), record)
+    //@   props C19
+    //@   ens[StdWriter::write.post.format_failure_reported] self.is_async() && !fmt_ok(self.fmt(), record) ==> super::util::reported(ErrorCode::Format)
+    //@   closure ~eprint_err(ErrorCode::Format ## sig |e: std::io::Error| -> (u: ())
+    //@   closure ~eprint_err(ErrorCode::Format ## req super::util::reportable(ErrorCode::Format)
+    //@   closure ~eprint_err(ErrorCode::Format ## ens super::util::reported(ErrorCode::Format)
+    //@   props C20,C15
     //@   canary
     //@ fn src/primary_writer/std_writer.rs impl LogWriter for StdWriter / fn flush
     //@   ret r
